@@ -26,6 +26,7 @@ class Scn:
         self.w = World(binary, shim, rng, nd=cfg['nd'], np_=cfg['np'], order=cfg['order'], fake_uuid=cfg['uuid'], multi=False, where=cfg['where'], murmur=True)
         self.ncmd = self.nmodel = 0
         self.stats = {}
+        self.pending_drift = None
         self.trusted = set()     # (disk, sub) whose identity (inode/path + size + time-stamp) is unchanged by design: not re-read
         self.ok = True
 
@@ -408,7 +409,7 @@ def main(tier, replay=None):
     if replay:
         cfgs = [json.load(open(replay))['replay']['config']]
     else:
-        cfgs = configs(rng, 48 if tier == 'quick' else 240)
+        cfgs = configs(rng, 160 if tier == 'quick' else 800)
     import concurrent.futures as cf
     stats, ncmd, nmodel, samples = {}, 0, 0, []
     with cf.ThreadPoolExecutor(max_workers=min(8, NCPU)) as ex:
